@@ -330,6 +330,16 @@ def units_for(chk, F):
         if body.get("k") == "Binary" and body.get("op") == "Eq" and len(pnames) == 2 and all(pnames):
             (la, fa), (lb, fb) = comp(body["a"]), comp(body["b"])
             same_key = {la, lb} == set(pnames) and fa == fb and fa is not None
+            # ... and that component is the category: it is what the group's `category` is made from, and what the sort orders by first
+            if same_key:
+                mp0 = next((m_ for m_ in H.method_calls(arm["body"]) if m_["name"] == "map" and any(x is cb for x in hir_walk(m_["recv"]))), None)
+                lits = [n_ for n_ in hir_walk(mp0["args"][0]) if n_.get("k") == "Struct" and str(n_.get("ty", "")).endswith("UnitsInCategory")] if mp0 and mp0["args"] else []
+                cat_init = next((f_["e"] for n_ in lits for f_ in n_["fields"] if f_["name"] == "category"), None)
+                from_cat = cat_init is not None and any(x.get("k") == "Field" and x.get("name") == fa for x in hir_walk(cat_init)) and \
+                    not any(x.get("k") == "Field" and x.get("name") != fa and str(x.get("of_ty", "")) == str(body["a"].get("of_ty", body["a"].get("e", {}).get("of_ty", "?"))) for x in hir_walk(cat_init))
+                sort_first = bool(srt) and srt[0]["args"] and any(m_.get("k") == "Match" and sum(1 for x in hir_walk(m_["scrut"]) if x.get("k") == "Field" and x.get("name") == fa) == 2
+                                                                   for m_ in hir_walk(srt[0]["args"][0]))
+                same_key = from_cat and sort_first
         users = [m_ for m_ in H.method_calls(arm["body"]) if any(x is cb for x in hir_walk(m_["recv"]))]
         names = [m_["name"] for m_ in users]
         kept = "map" in names and "collect" in names and not [n_ for n_ in names if n_ in ("filter", "filter_map", "skip", "take", "step_by", "skip_while", "take_while", "rev")]
